@@ -93,7 +93,8 @@ RegistryT<ArgsT<TG_, TSL_, TRL_, NCC_, 0, 0, TRO_ HFSM2_IF_SERIALIZATION(, NSB_)
 		if (Parent parent = stateParents[stateId]) {
 			HFSM2_ASSERT(parent.forkId > 0);
 
-			return compoRequested[parent.forkId - 1] !=
+			return compoRequested[parent.forkId - 1] != INVALID_PRONG &&
+				   compoRequested[parent.forkId - 1] !=
 				   compoActive	 [parent.forkId - 1];
 		}
 
@@ -111,6 +112,7 @@ RegistryT<ArgsT<TG_, TSL_, TRL_, NCC_, 0, 0, TRO_ HFSM2_IF_SERIALIZATION(, NSB_)
 			HFSM2_ASSERT(parent.forkId > 0);
 
 			return parent.prong == compoActive	 [parent.forkId - 1] &&
+				   compoRequested[parent.forkId - 1] != INVALID_PRONG &&
 				   parent.prong != compoRequested[parent.forkId - 1];
 		}
 
